@@ -142,6 +142,14 @@ func TestCloudStageHistories(t *testing.T) {
 					m := gen.Datapoint(rapid.Int64Range(1, 3)).Draw(t, "dp")
 					m.Source = rapid.SampledFrom(sources).Draw(t, "source")
 					pts = append(pts, m)
+					// the same series sent from another address in the same batch: if both addresses belong to one instance the
+					// two coincide after enrichment and must be merged
+					if rapid.IntRange(0, 2).Draw(t, "twin-from-other-address") == 0 {
+						c := gen.CopyMetric(m)
+						c.Source = rapid.SampledFrom(sources).Draw(t, "twin-source")
+						c.Value = float64(rapid.IntRange(1, 9).Draw(t, "twin-value"))
+						pts = append(pts, c)
+					}
 				}
 				mm := gen.MapFromMetrics(pts)
 				var newly []gostatsd.Source
@@ -332,6 +340,9 @@ func TestCloudStageHistories(t *testing.T) {
 				var in *gostatsd.Instance
 				if rapid.Bool().Draw(t, "positive") {
 					in = instFor(t, s)
+					if rapid.IntRange(0, 2).Draw(t, "one-instance-many-addresses") == 0 {
+						in = &gostatsd.Instance{ID: "i-shared", Tags: gostatsd.Tags{"cloud"}}
+					}
 				}
 				ci.Set(s, in)
 				history = append(history, fmt.Sprintf("cacheInsert(%q,%v)", s, in != nil))
